@@ -35,14 +35,16 @@ CHECKS['C20'] = dict(
     text='The stage-weight block of FlowIR.inject_default_values, the weight block of StatusMonitor.__init__, the accumulation loops '
          'of CheckStatus and the progress expression of Controller.get_stage_status are lifted from the current source on every run and '
          'executed over IEEE-754 terms. For <=2 (thorough <=3) stages every double is covered; lemmas cover every stage count up to 4096. '
-         'Every path model is replayed natively and the lifted block is compared with the real function on it.',
+         'Every path model is replayed natively and the lifted block is compared with the real function on it. A second section executes the real '
+         'StatusMonitor.run/CheckStatus on the real Controller.initialise/get_stages_finished/get_stages_in_transit/get_stage_status (stub '
+         'experiment, <=3 (4) stages) with a symbolic starting stage, current stage and per-component phase.',
     note='trusted: z3/cvc5 FP theories = CPython float semantics, the 400-line AST interpreter (validated against the real function on '
          'every path model and on ~300 concrete inputs per run); logging statements skipped; tolerance n*2^-52 for "equals one".',
     design='DESIGN.md section 2 C20')
 
 CHECKS['C17'] = dict(
     technique='bounded symbolic execution (z3, own executor) over selection/presence variables of the configuration, oracle = independent rule statement',
-    text='Every combination of selected environment spelling, platform, presence of the named/package environment on either platform, '
+    text='Every combination of selected environment spelling, platform, named/package environment absent / defined empty / defined with contents on either platform, '
          'DEFAULTS list, launch-environment contents and interpreter flag within the bound is executed on the real '
          'environmentForNode and compared with an independent statement of the documented rules; exhaustive within the bound.',
     note='os.environ replaced by the symbolic launch environment; values are fixed tokens (no symbolic strings).',
@@ -61,7 +63,7 @@ CHECKS['C08'] = dict(
 CHECKS['C04'] = dict(
     technique='bounded symbolic execution (z3, own executor): presence of a definition in every configuration layer is a solver variable; oracle = fold in documented order',
     text='For one variable (14 layer slots incl. two user files and a never-selected platform), one typed option (9 blueprint slots, '
-         'int/str/reference values) and 3-variable reference chains, every combination is executed on the real '
+         'int/str/reference values) and 3-variable reference chains (literal text chosen among texts with characters special to regex templates, str.format, %-formatting and the shell), every combination is executed on the real '
          'FlowIRConcrete.get_component_configuration and compared with the documented priority fold; exhaustive within the bound.',
     note='values are distinguishable tokens (no symbolic strings); read_user_variables stubbed; cyclic variable definitions excluded.',
     design='DESIGN.md section 2 C04')
@@ -69,12 +71,13 @@ CHECKS['C04'] = dict(
 CHECKS['C09'] = dict(
     engine='crosshair',
     technique='CrossHair symbolic execution (z3) of PEP316 contracts over the real parse/print/classify functions, symbolic characters; counterexamples replayed natively',
-    text='Thirteen contracts (print/parse round trips, relative vs absolute spelling, idempotent expansion, classification of reserved / '
+    text='Fourteen contracts (print/parse round trips, nested manifest keys, relative vs absolute spelling, idempotent expansion, classification of reserved / '
          'manifest / application-dependency / absolute / variable first segments, uid escaping) are searched by CrossHair with one symbolic '
          'string of <=3-4 characters each. Conditions CrossHair exhausts are discharged obligations within that length; the others are '
          'bug-hunting only (reported as inconclusive in the evidence).',
-    note='CrossHair\'s str/regex model is trusted only for confirmations; every counterexample is replayed on the real code; a native '
-         'sweep over an 8-letter alphabet backs each contract and serves as vacuity witness.',
+    note='CrossHair\'s str/regex model is trusted only for confirmations; every counterexample is replayed on the real code; each condition has a '
+         'reachability twin that CrossHair must refute (vacuity guard); posixpath.normpath (C code rejecting symbolic strings) is replaced by '
+         'CPython\'s pure-Python fallback, validated against the C function in every run; a native sweep over an 8-letter alphabet backs each contract.',
     design='DESIGN.md section 2 C09')
 
 CHECKS['C10'] = dict(
@@ -82,7 +85,7 @@ CHECKS['C10'] = dict(
     technique='CrossHair symbolic execution (z3) of the real resolveArguments with symbolic characters in a producer name; counterexamples replayed natively',
     text='The real ComponentSpecification.resolveArguments runs on a subclass overriding only data-providing properties; one producer name '
          '(<=2 symbolic characters) is set against the representatives A, AB, A1 in both spellings, both declaration orders, option prefixes, '
-         'output references and the same name in two stages. Bug-hunting strength (CrossHair does not exhaust these conditions); the '
+         'output references, symbolic file contents of an :output reference, and the same name in two stages. Bug-hunting strength (CrossHair does not exhaust these conditions); the '
          'substring-replacement defect it finds is a listed known finding.',
     note='DataReference.resolve stubbed to a distinct token per reference; is_raw=True (fill_in skipped); native sweep over a 6-letter alphabet.',
     design='DESIGN.md section 2 C10')
@@ -121,10 +124,10 @@ CHECKS['C14'] = dict(
 CHECKS['C16'] = dict(
     engine='symx+crosshair',
     technique='bounded symbolic execution (z3, own executor) over which single aspect differs between two real workflows + CrossHair on the hash canonicalisation',
-    text='Kernel only. E1: for every backend and every one of 11 aspects (5 hash-relevant, 6 irrelevant) two in-memory workflows differing in '
+    text='Kernel only. E1: for every backend and every one of 13 aspects (6 hash-relevant, 7 irrelevant, incl. names ending in digits) two in-memory workflows differing in '
          'exactly that aspect are loaded and the real memoization_hash / memoization_hash_fuzzy compared (differ iff relevant, producer chain '
-         'included). E2: CrossHair searches _memoization_info_to_hash (md5 replaced by a recorder) for collisions/instabilities with symbolic strings.',
-    note='file content hashing, missing inputs, JavaScript embedding and CDB lookups are outside; md5 assumed injective; aspects and values are a finite family.',
+         'included); direct file references and chains data file -> producer -> produced file -> consumer with any link missing or differing; replicas of blueprints whose own name ends in digits. E2: CrossHair searches _memoization_info_to_hash (md5 replaced by a recorder) for collisions/instabilities with symbolic strings.',
+    note='symbolic file contents (md5 is C code; two concrete contents), JavaScript embedding and CDB lookups are outside; md5 assumed injective; aspects and values are a finite family.',
     design='DESIGN.md section 2 C16')
 CHECKS['C18'] = dict(
     technique='bounded symbolic execution (z3, own executor) over the segment structure of archive member names, link targets and manifest keys; file-system writes recorded by a model',
@@ -138,11 +141,12 @@ CHECKS['C18'] = dict(
 
 CHECKS['C19'] = dict(
     technique='bounded symbolic execution (z3, own executor) over which component options are present (singly and in pairs), backend and values; real flatten -> parse pair',
-    text='Component option tables only: for every backend expressible in the legacy format and each of 44 options (alone and in pairs within a '
+    text='Component option tables and one disk family: for every backend expressible in the legacy format and each of 44 options (alone and in pairs within a '
          'section) the real Dosini writer helpers flatten the component, the real parse_component + convert_component_types read it back, and '
-         'both sides are resolved with FlowIRConcrete and compared. Exhaustive within that family.',
-    note='configparser/disk half of the property (Dosini.dump, load_from_directory, variable files, environments, status/output sections) is '
-         'not claimed; str() models what configparser stores.',
+         'both sides are resolved with FlowIRConcrete and compared. Disk half: FlowIRConcrete.instance -> Dosini.dump(is_instance=True) -> load_from_directory '
+         'for 1, 2, 3, 11 or 12 stages with a named environment, stage variables, status weights and one optional option; components, resolved '
+         'configurations, variables, environments and status are compared. Exhaustive within those families.',
+    note='DOSINIExperimentConfiguration, non-instance packages (variables.conf / platform files) and output sections are not claimed; in the option-table half str() models what configparser stores.',
     design='DESIGN.md section 2 C19')
 
 CHECKS['C13'] = dict(
@@ -169,7 +173,7 @@ CHECKS['C02'] = dict(
 CHECKS['C11'] = dict(
     technique='bounded symbolic execution (z3, own executor) over base-document shape x a single injected fault (kind, position, wrong value); real loader on every path',
     text='Reduced scope: FlowIR packages only. Every base document of the family (replication / platform override / third stage present or not, '
-         'both platforms) is written to a scratch package and loaded by the real graphFromPackage with validation on, unmodified and with one fault '
+         'both platforms) is written to a scratch package and loaded by the real graphFromPackage (and, in memory, by graphFromFlowIR(primitive=False)) with validation on, unmodified and with one fault '
          'of 10 kinds at every applicable position. Whatever loads must be acyclic, uniquely named, reference only existing components and resolve '
          'every configuration; every faulted document must be rejected with ExperimentInvalidConfigurationError (a 20 s alarm stands for a hang). '
          'Exhaustive within the family.',
@@ -179,7 +183,7 @@ CHECKS['C11'] = dict(
 CHECKS['C06'] = dict(
     technique='bounded symbolic execution (z3, own executor) over the shape of the DSL namespace (templates per step, parameter sources per call site, reference targets, one structural fault); oracle = independent flattening',
     text='Reduced scope: the shape of the namespace is symbolic, its characters are not. For an entry workflow with three steps, an optional '
-         'nested workflow instantiated once or twice (thorough: a third level), every way of supplying each parameter (literal, forwarded, default, '
+         'nested workflow instantiated once or twice (thorough: a third level), every way of supplying each parameter (literal text or the empty string overriding a default, forwarded, default, '
          'sibling / nested / handed-down output reference) and seven kinds of invalid namespace, the real Namespace + namespace_to_flowir run and '
          'the compiled components, their arguments, references and names are compared with an independent flattening; invalid namespaces must '
          'raise DSLInvalidError with locations (a 20 s alarm stands for a hang). Path-budgeted in the quick tier.',
